@@ -670,6 +670,38 @@ def rule_select_default(run):
     run.end()
 
 
+def rule_redirect_shortcut(run):
+    run.begin(
+        "C03.redirect",
+        "an assignment whose source is a set of not yet merged alternatives is lowered through a fresh temporary and a real "
+        "assignment statement (which carries the mode: <<=, ^=, @=); only when the TARGET itself is a Temporary may the "
+        "alternatives be redirected straight into it - a Signal target would lose the push/next distinction (no default reset)",
+        floor=1,
+    )
+    prep = run.idx.mod("cohdl/_compiler/frontend/_prepare_ast.py")
+    f = prep.func("PrepareAst.convert_intrinsic")
+    n = 0
+    for c in ast.walk(f.node):
+        if isinstance(c, ast.Call) and isinstance(c.func, ast.Attribute) and c.func.attr == "_redirect_values" and c.args and isinstance(c.args[0], ast.Name):
+            tgt = c.args[0].id
+            # is the argument the assignment's own target (not a temporary created for it)?
+            fresh = any(isinstance(a, ast.Assign) and dotted(a.targets[0]) == tgt and isinstance(a.value, ast.Call) and "Temporary[" in src(a.value.func) for a in ast.walk(f.node))
+            if fresh:
+                continue
+            n += 1
+            guards = [g for g in prep.parents.ancestors(c) if isinstance(g, ast.If) and any(x is c for b in g.body for x in ast.walk(b)) and tgt in src(g.test) and "isinstance" in src(g.test)]
+            ok = False
+            found = "unguarded"
+            if guards:
+                t = guards[0].test
+                found = src(t)[:80]
+                ok = isinstance(t, ast.Call) and dotted(t.func) == "isinstance" and dotted(t.args[0]) == tgt and (dotted(t.args[1]) or "").split(".")[-1] == "Temporary"
+            run.ob(ok, "PrepareAst.convert_intrinsic", file=prep.rel, line=c.lineno, detail=f"direct-redirect-into-{tgt}", expected=f"only under isinstance({tgt}, Temporary)", found=found)
+    if n < 1:
+        raise AnalysisError("convert_intrinsic: direct redirect of merged alternatives not found")
+    run.end()
+
+
 def rule_views(run):
     from ..rules import views
     views.run_rule(run, "F-VIEW")     # an assignment target that is a (nested) slice / element addresses exactly those bits, every time it is written
@@ -680,7 +712,7 @@ def rule_returns_always(run):
     c10.rule_returns_always(run)      # statements (assignments) after a compound statement are dropped iff it returns on EVERY path
 
 
-RULES = [rule_chain, rule_pushed, rule_alias, rule_index_capture, rule_if_merge, rule_writeback, rule_with_exit, rule_std_assignable, rule_refspec, rule_all_open_blocks, rule_select_default, rule_views, rule_returns_always]
+RULES = [rule_chain, rule_pushed, rule_alias, rule_index_capture, rule_if_merge, rule_writeback, rule_with_exit, rule_std_assignable, rule_refspec, rule_all_open_blocks, rule_select_default, rule_views, rule_returns_always, rule_redirect_shortcut]
 LEVEL = "other"
 EXPLANATION = (
     "Table/shape analysis of the assignment pipeline for all programs at once: the nine hand-written stages that carry "
